@@ -119,7 +119,7 @@ CHECKS = {
               'filesystems), loadA, loadFresh, remove, tear (every prefix of the file)} on {absolute, relative, bare-file-name} paths; sessions with keys/hashes of '
               '0..300 arbitrary bytes, salts over all int64 classes, host names of arbitrary valid UTF-8 incl. JSON metacharacters. Non-trivial: a load after a '
               'second store, a torn file, a non-ASCII or metacharacter host, or a negative salt; distinct by hash of the history.'),
-        must_hit=['op:tear', 'torn-file', 'load-after-second-store', 'load-after-same-tick-store', 'load-missing', 'path:bare', 'path:relative', 'path:absolute',
+        must_hit=['concurrent-stores', 'op:tear', 'torn-file', 'load-after-second-store', 'load-after-same-tick-store', 'load-missing', 'path:bare', 'path:relative', 'path:absolute',
                   'host-non-ascii', 'host-json-metachar', 'salt-negative', 'op:remove', 'op:storeFresh', 'op:loadFresh', 'store-of-an-earlier-value', 'resume', 'resume-verdict:ok'],
         assumptions=['host names are valid UTF-8 (JSON cannot carry other byte strings)', 'the directory of the path exists',
                      'a crash during writing leaves a prefix of the new content (os.WriteFile truncates, then writes)',
@@ -177,7 +177,7 @@ CHECKS = {
         rule=('one case per schema definition in scope and one per registered constructor id; the whole finite set is enumerated on every run (no sampling). Non-trivial: the '
               'definition has at least one parameter / the id is registered; distinct by definition name.'),
         programs_class='programs',
-        must_hit=['kind:function', 'kind:constructor', 'kind:enum-member', 'dormant-definition', 'hand-written-wrapper', 'has-conditional-fields', 'file:mtproto.tl', 'registered-id', 'method-call', 'result-kind:Bool', 'result-kind:vector', 'result-kind:object', 'args:positional'],
+        must_hit=['kind:function', 'kind:constructor', 'kind:enum-member', 'dormant-definition', 'hand-written-wrapper', 'has-conditional-fields', 'file:mtproto.tl', 'registered-id', 'method-call', 'second-call-on-the-same-client', 'result-kind:Bool', 'result-kind:vector', 'result-kind:object', 'args:positional'],
         assumptions=['the five commented-out header lines of api_121.tl ("these items exist in tl schema") count as definitions of the schema file; their ids are compared as written, the CRC-32 rule is not applied to them',
                      'msg_container and gzip_packed have hand-written (un)marshalers: only their ids are compared here, their wire behaviour in C02',
                      'invokeAfterMsg(s), invokeWithoutUpdates, invokeWithMessagesRange are documented as not implemented and are reported, not flagged'],
@@ -215,7 +215,7 @@ CHECKS = {
         technique='structure-aware mutation fuzzing driven by rapid + exhaustive prefix truncation per constructor + native coverage-guided fuzzing (thorough)',
         rule=('case = (bytes, target: unknown object | named Go type, vector hints). Bytes come from valid encodings built by the C01 generator with 0..3 mutations, from '
               'hand-built containers / gzip_packed objects, or are byte soup. Non-trivial: at least one mutation or hostile construction was applied; distinct by hash of (bytes,target,hints).'),
-        must_hit=['mut:nested-vectors', 'mut:vector-inside-vector', 'mut:truncate', 'mut:replace-word', 'mut:replace-constructor-id', 'mut:vector-count', 'mut:length-byte', 'mut:splice', 'mut:append', 'mut:container-counts-sizes',
+        must_hit=['first-use-concurrent', 'mut:nested-vectors', 'mut:vector-inside-vector', 'mut:truncate', 'mut:replace-word', 'mut:replace-constructor-id', 'mut:vector-count', 'mut:length-byte', 'mut:splice', 'mut:append', 'mut:container-counts-sizes',
                   'mut:gzip-valid', 'mut:gzip-truncated-stream', 'mut:gzip-garbage', 'mut:gzip-nested', 'mut:byte-soup', 'target:unknown-no-hints', 'target:unknown-with-hints',
                   'target:vector-with-hints', 'target:named-seed-type', 'target:named-other-type', 'seed:mtproto-object', 'seed:int128/256', 'outcome:decoded', 'outcome:refused-with-error'],
         assumptions=['hints are slice types (what generated methods pass)', 'allocation is measured with runtime/metrics /gc/heap/allocs:bytes around the call',
@@ -292,7 +292,7 @@ CHECKS = {
         technique='metamorphic reseeding and clock-window seed recovery over generated seeds (rapid); falsification of unpredictability, not proof of provenance',
         rule=('case = (kind in {reseed-nonces, reseed-exchange, reseed-srp, clock-nonce, clock-exponent, reseed-exponent-params}, seed value, g, password, dh_prime, g_a). Every case is non-trivial; distinct by hash of the case. '
               'coverage.classes["seed-candidates-tried"] counts the candidate seeds replayed.'),
-        must_hit=['kind:reseed-nonces', 'kind:clock-nonce', 'kind:clock-exponent', 'kind:reseed-srp', 'kind:reseed-exponent-params', 'small-group', 'kind:srp-distinct', 'secure_random_len=1', 'seed-candidates-tried'],
+        must_hit=['kind:reseed-nonces', 'kind:clock-nonce', 'kind:clock-exponent', 'kind:reseed-srp', 'kind:reseed-exponent-params', 'small-group', 'kind:srp-distinct', 'secure_random_len=1', 'kind:stalled-os-source', 'stall=300ms', 'seed-candidates-tried'],
         assumptions=['the statement quantifies over code paths; this check executes the (straight-line) paths under generated environments and can only refute unpredictability',
                      'the exponent\'s seed, if clock-derived, is read within 300 us of entering MakeGAB (it is needed before the exponentiations that dominate the call)'],
     ),
@@ -343,7 +343,7 @@ CHECKS = {
         technique='history enumeration (small) + generation (rapid) of salt-rotation scenarios against a reference server; state inspection for stalls',
         rule=('case = plan (fresh|resumed; per rotation: accepted-before, rejected-by, answered-now counts, announcement kind, answer order). Non-trivial: at least one rotation with '
               'a pending request; distinct by hash of the script.'),
-        must_hit=['fresh-keyed+rotation', 'second-rotation', 'rejected-message-is-an-ack', 'accepted+rejected-mixed', 'pending-across-two-rotations', 'rotation-with-nothing-pending', 'salt-by-new_session_created',
+        must_hit=['fresh-keyed+rotation', 'second-rotation', 'rejected-message-is-an-ack', 'salt-notifications-in-a-burst', 'accepted+rejected-mixed', 'pending-across-two-rotations', 'rotation-with-nothing-pending', 'salt-by-new_session_created',
                   'session:resumed', 'verdict:ok'],
         assumptions=['acknowledgements that the server rejects for their stale salt are not "requests": only tagged RPC requests are counted',
                      'the hook after an adoption fires after the salt was assigned and saved, so a concurrently written message may already carry it: a newer salt is never blamed',
@@ -362,7 +362,7 @@ CHECKS = {
         technique='history generation (rapid) + per-event enumeration against a scripted reference server with a live client per case; state inspection for a stopped loop',
         rule=('case = list of server events with wrapping flags; after each a probe. Non-trivial: at least one event other than pong/ack; distinct by hash of the event list.'),
         must_hit=['event:' + k for k in ('pong', 'ack', 'new-session', 'bad-msg', 'state-info', 'all-info', 'detailed-info', 'new-detailed-info', 'future-salts', 'result-unknown',
-                  'result-again', 'error-unknown', 'update', 'updates-too-long', 'unknown-ctor', 'truncated', 'empty-body', 'empty-container', 'nested-container', 'raw-soup', 'gzip-damaged', 'close', 'bad-salt-unknown', 'bad-salt-answered', 'rotate')] + ['schema-object:mtproto.tl', 'schema-object:api_latest.tl'] +
+                  'result-again', 'error-unknown', 'update', 'updates-too-long', 'unknown-ctor', 'truncated', 'empty-body', 'empty-container', 'nested-container', 'raw-soup', 'gzip-damaged', 'close', 'bad-salt-unknown', 'bad-salt-answered', 'rotate')] + ['schema-object:mtproto.tl', 'schema-object:api_latest.tl', 'event-frame-in-two-tcp-segments'] +
                  ['event-gzip-packed', 'event-in-container', 'handler-called', 'warning-surfaced', 'verdict:ok'],
         assumptions=['"close" is an orderly close (FIN); an abortive close (RST) is outside the statement - observed: the client then neither reconnects nor reports anything (noted in DESIGN.md)',
                      'a request made while the client swaps connections may fail with a write error; the probe after a close is repeated until the new connection is in use',
